@@ -73,6 +73,10 @@ CLAIMED = {
         "for every submitted string, and that every redirect site in the package passes such a value or satisfies its own listed clause; unbounded in the input.",
    note=TRUST + "net/http form parsing (FormValue/Values.Get) and http.Redirect are trusted contracts.",
    design="7 (C17)"),
+ "C18": dict(
+   text="Deductive proof, at every conversion of a non-constant string to html/template.HTML in cmd/keymasterd (the only way around the template engine's contextual escaping; the sites are found by a sweep over go/ssa, so a new one is a new obligation), that the produced markup is one of two fixed elements whose only variable part is an attribute value free of double quotes and angle brackets (regular-expression membership decided by the string solvers; Go regexps are translated exactly); conversions to the other bypass types (JS, JSStr, HTMLAttr, CSS, URL, Srcset) are forbidden outright.",
+   note=TRUST + "html/template's auto-escaping of ordinary fields, HTMLEscapeString and the base64 alphabet are trusted contracts; pages written without the template engine (fmt.Fprintf of plain-text/JSON bodies) are not HTML and are not covered.",
+   design="7 (C18)"),
 }
 
 NOT_YET = "check not built yet in this snapshot of /verif (work in progress; see DESIGN.md section 7 for the planned contracts)"
